@@ -19,7 +19,8 @@ use soroban_sdk::{Address, Bytes, BytesN};
 pub struct C05;
 
 const HUB_ADDR: &str = "axelar1hub";
-const CHAINS: [&str; 3] = ["ethereum", "avalanche", "sui"];
+// (one trusted name has upper-case letters: names are compared and announced as they were given)
+const CHAINS: [&str; 3] = ["ethereum", "Avalanche-Fuji", "sui"];
 const NU: usize = 4; // users
 const START_ASSET: i128 = 1000;
 const START_GAS: i128 = 50;
